@@ -328,6 +328,7 @@ pub fn lockstep(case: &ExecCase, cfg: &LockCfg, obs: &mut Obs) -> Result<LockSum
         cost: &cost_fn,
         steps_left: Cell::new(cfg.budget),
         breadth_cap: cfg.breadth_cap,
+        cost_calls: Cell::new(0),
     };
     let mut m = Machine::new(&case.prog, case.init.clone(), &env, case.limit);
     if let Some(pm) = &case.parent {
@@ -580,6 +581,12 @@ pub fn run_eval(case: &ExecCase) -> Result<Result<bool, String>, Violation> {
 
 /// Run the model alone (whole program).
 pub fn run_model(case: &ExecCase, budget: u64, breadth_cap: i64) -> (mvm::RunResult, MState, u128, u64) {
+    let (r, st, gas, exec, _) = run_model_calls(case, budget, breadth_cap);
+    (r, st, gas, exec)
+}
+
+/// Same, also returning how often the model consulted the cost function.
+pub fn run_model_calls(case: &ExecCase, budget: u64, breadth_cap: i64) -> (mvm::RunResult, MState, u128, u64, u64) {
     let mviews = ModelViews::from_spec(&case.state);
     let costs = case.costs.clone();
     let cost_fn = move |op: &MOp| costs.cost(op);
@@ -590,6 +597,7 @@ pub fn run_model(case: &ExecCase, budget: u64, breadth_cap: i64) -> (mvm::RunRes
         cost: &cost_fn,
         steps_left: Cell::new(budget),
         breadth_cap,
+        cost_calls: Cell::new(0),
     };
     let mut m = Machine::new(&case.prog, case.init.clone(), &env, case.limit);
     if let Some(pm) = &case.parent {
@@ -597,7 +605,7 @@ pub fn run_model(case: &ExecCase, budget: u64, breadth_cap: i64) -> (mvm::RunRes
         m.in_child = true;
     }
     let r = m.run();
-    (r, m.st.clone(), m.gas, m.executed_total)
+    (r, m.st.clone(), m.gas, m.executed_total, env.cost_calls.get())
 }
 
 pub fn vm_state_tail(v: &[i64]) -> &[i64] {
